@@ -265,6 +265,21 @@ impl<'tcx> Dumper<'tcx> {
             }
             return out;
         }
+        // a provided (default) method of a std trait, instantiated for a user type, is written in terms of the other methods
+        // of the trait: `a != b` is PartialEq::ne, whose body calls the user's eq; lt / le / gt / ge call partial_cmp ...
+        if let Some(tr) = tcx.trait_of_assoc(rd) {
+            if tcx.parent(rd) == tr {
+                let n = tcx.generics_of(tr).count();
+                if rargs.len() >= n {
+                    let targs: Vec<ty::GenericArg<'tcx>> = rargs.iter().take(n).collect();
+                    for it in tcx.associated_items(tr).in_definition_order() {
+                        if it.is_fn() && it.def_id != rd && tcx.generics_of(it.def_id).count() == n {
+                            try_push(it.def_id, targs.clone());
+                        }
+                    }
+                }
+            }
+        }
         // generic rule: a trait-impl method of std forwards to the same trait method of the user types
         if let Some(tm) = tcx.trait_item_of(rd) {
             if let Some(tr) = tcx.trait_of_assoc(tm) {
